@@ -179,7 +179,7 @@ _FIRST = lambda ks: [{"first": k} for k in ks]  # noqa: E731
 
 @harness(
     "C24",
-    timeout=(120, 900),
+    timeout=(240, 900),
     shards=_FIRST([0, 1, 2, 3, 4, -1]),
     functions=["association:Association._wrap_find_responses", "association:Association._handle_no_response",
                "status:code_to_category"],
@@ -205,7 +205,7 @@ REPO_MODEL = UID("1.2.840.10008.5.1.4.1.1.201.6")   # Repository Query (PS3.4 C.
 
 @harness(
     "C24",
-    timeout=(120, 900),
+    timeout=(240, 900),
     shards=_FIRST([0, 1, 2]),
     functions=["association:Association._wrap_find_responses"],
     bounds="as find_stream with the Repository Query model, whose Warning 0xB001 is documented (PS3.4 C.6.4.4) not to end the "
@@ -225,7 +225,7 @@ def find_stream_repository(kinds: List[int], codes: List[int]) -> bool:
 
 @harness(
     "C24",
-    timeout=(120, 900),
+    timeout=(240, 900),
     shards=[dict(op=o, first=k) for o in ("get", "move") for k in (0, 1, 2, 3, 4, 5, -1)],
     functions=["association:Association._wrap_get_move_responses", "association:Association._c_store_scp",
                "association:Association._get_valid_context", "association:Association._handle_no_response",
